@@ -473,9 +473,10 @@ func init() {
 
 	// mutexes: side table keyed by receiver address
 	type mstate struct {
-		locked  bool
-		readers int
-		owner   int
+		locked    bool
+		readers   int
+		owner     int
+		contended bool
 	}
 	getM := func(i *interpreter, p value) *mstate {
 		key := p.(*value)
@@ -488,7 +489,10 @@ func init() {
 	}
 	lock := func(fr *frame, args []value) value {
 		m := getM(fr.i, args[0])
-		fr.i.sched.yield(fr.th, "Lock")
+		if m.locked || m.readers > 0 || m.contended {
+			m.contended = true
+			fr.i.sched.yield(fr.th, "Lock")
+		}
 		if m.locked || m.readers > 0 {
 			fr.th.blocked = func() bool { return !m.locked && m.readers == 0 }
 			fr.i.sched.yield(fr.th, "Lock(blocked)")
@@ -503,7 +507,9 @@ func init() {
 			panic(targetPanic{iface{types.Typ[types.String], "sync: unlock of unlocked mutex"}})
 		}
 		m.locked = false
-		fr.i.sched.yield(fr.th, "Unlock")
+		if m.contended {
+			fr.i.sched.yield(fr.th, "Unlock")
+		}
 		return nil
 	}
 	ext["(*sync.Mutex).Lock"] = lock
